@@ -77,7 +77,13 @@ func init() {
 		p.BlockOps = []string{"type_add", "type_add", "comp_add", "comp_delete", "entity_delete"}
 	}),
 		"distinct run digests with an accepted component operation", func(r *Result) bool { return trig(r, "op:comp_add") })
-	props["C13"] = histSpec("C13", histProfile("C13", map[string]int{"type_add": 8, "comp_add": 14, "comp_delete": 8, "comp_update": 14, "subscribe": 12, "unsubscribe": 8}, func(p *Profile) { p.MinMembers = 3; p.PClose = 0.05 }),
+	props["C13"] = histSpec("C13", histProfile("C13", map[string]int{"type_add": 8, "comp_add": 14, "comp_delete": 8, "comp_update": 14, "subscribe": 12, "unsubscribe": 8}, func(p *Profile) {
+		p.MinMembers = 3
+		p.PClose = 0.05
+		// an unsubscribe (or a departure) arriving while a notification is on its way
+		p.PBlock = 0.08
+		p.BlockOps = []string{"unsubscribe", "unsubscribe", "comp_update", "comp_update", "comp_update", "subscribe", "comp_add", "comp_delete", "close"}
+	}),
 		"distinct run digests with a subscription and a component change", func(r *Result) bool { return trig(r, "op:subscribe") && trig(r, "op:comp_add", "op:comp_update") })
 	props["C16"] = histSpec("C16", histProfile("C16", map[string]int{"action": 22, "asset_add": 16, "entity_add": 12, "entity_delete": 8}, func(p *Profile) { p.AllModules = true; p.MinMembers = 2; p.PProbe = 0.1; p.PClose = 0.06 }),
 		"distinct run digests with an accepted action or asset", func(r *Result) bool { return trig(r, "op:action", "op:asset_add") })
